@@ -53,6 +53,12 @@ def typed_attack(ctx, T, rng, thorough):
                 continue
             conv = getattr(type(obj), f["attr"]).converter
             texts = list(UNDECODABLE) if thorough else rng.sample(UNDECODABLE, 7) + ["Auto Down", ""]
+            # texts on which the model is silent (exotic numeric syntax somewhere in the converter chain) are not part of the binding stream
+            verdicts = core.run_driver("decode", [f"{c['py']} {f['name']} {core.hx(t)}" for t in texts])
+            for t, vd in zip(texts, verdicts):
+                if vd == "U":
+                    ctx.count("attack:model-unspecified(skipped)")
+            texts = [t for t, vd in zip(texts, verdicts) if vd != "U"]
             if rng.random() < 0.7:
                 S.msg("OK", c["id"], f["name"], value_for(rng, T, f, undecodable_ok=False))
             for t in texts:
